@@ -86,11 +86,50 @@ func c36GenSrc(t *rapid.T) (kind, src string, seedW int) {
 		seed := rapid.SampledFrom(all).Draw(t, "seed")
 		other := rapid.SampledFrom(all).Draw(t, "other")
 		return "spec-mutant", c35Mutate(t, seed, other), 0
-	case k < 17:
+	case k < 16:
 		return "grammar", c35Doc(t), 0
+	case k < 17:
+		return "lookalike", c36Lookalike(t), 0
 	default:
 		return "soup", c35Soup(t), 0
 	}
+}
+
+// c36Lookalike: paragraphs (optionally inside a quote or list item) whose
+// lines begin with text that merely looks like a block start - escaped in the
+// source or written with a character reference - which the formatter has to
+// keep harmless on every line, not only the first.
+func c36Lookalike(t *rapid.T) string {
+	starts := []string{`1\. `, `01\. `, `001\) `, `0\. `, `10\. `, `1\) `, `&#49;. `, `&#48;1. `, `0&#49;) `, `\- `, `\+ `, `\* `, `\# `, `\## `, `\> `,
+		`\-\-\-`, `\=\=\=`, `\~~~`, "\\```", `\<div>`, `&lt;div>`, `\    x`, `-x `, `+`, `-`, `1.`, `01.x `, `999999999\. `, `1234567890. `}
+	words := []string{"a", "bb", "ccc", "dddd", "*e*", "`f`", "1", "01", "-", "+", "#", ">", "x."}
+	var sb strings.Builder
+	prefix := rapid.SampledFrom([]string{"", "", "", "> ", "- ", "1. ", "> - "}).Draw(t, "container")
+	cont := strings.Repeat(" ", len(prefix))
+	if strings.HasPrefix(prefix, ">") {
+		cont = "> " + strings.Repeat(" ", len(prefix)-2)
+	}
+	n := rapid.IntRange(1, 4).Draw(t, "lines")
+	for i := 0; i < n; i++ {
+		if i == 0 {
+			sb.WriteString(prefix)
+		} else {
+			sb.WriteString(cont)
+		}
+		if i > 0 || rapid.Bool().Draw(t, "firsttoo") {
+			if rapid.IntRange(0, 3).Draw(t, "?lookalike") > 0 {
+				sb.WriteString(rapid.SampledFrom(starts).Draw(t, "start"))
+			}
+		}
+		for j := rapid.IntRange(1, 4).Draw(t, "nwords"); j > 0; j-- {
+			sb.WriteString(rapid.SampledFrom(words).Draw(t, "word"))
+			if j > 1 {
+				sb.WriteString(" ")
+			}
+		}
+		sb.WriteString("\n")
+	}
+	return sb.String()
 }
 
 // c36Skip returns the upstream skip reason ("" = in domain) and the formatted text.
